@@ -21,6 +21,7 @@ import (
 	"github.com/practable/relay/internal/permission"
 	"github.com/practable/relay/internal/ttlcode"
 	"github.com/practable/relay/internal/util"
+	"github.com/practable/relay/internal/verifhook"
 	log "github.com/sirupsen/logrus"
 )
 
@@ -517,6 +518,7 @@ func (h *Hub) run() {
 			h.clients[client.topic][client] = true
 			h.mu.Unlock()
 			err := h.dcs.Add(client.bookingID, client.name, client.denied)
+			verifhook.Point("hub.recorded")
 			if err != nil {
 				log.WithFields(log.Fields{"error": err.Error(), "topic": client.topic, "booking_id": client.bookingID}).Warning("deny channel not added on client register")
 			}
@@ -528,6 +530,7 @@ func (h *Hub) run() {
 			}
 			h.mu.Unlock()
 			err := h.dcs.DeleteChild(client.name) // no need to close, not denied
+			verifhook.Point("hub.removed")
 			if err != nil {
 				log.WithFields(log.Fields{"error": err.Error(), "topic": client.topic, "booking_id": client.bookingID}).Warning("deny channel not deleted on client unregister")
 			}
@@ -606,6 +609,7 @@ func serveWs(closed <-chan struct{}, w http.ResponseWriter, r *http.Request, con
 	}
 
 	// Exchange code for token
+	verifhook.Point("ws.pre_exchange")
 
 	token, err := config.CodeStore.ExchangeCode(code)
 
@@ -655,6 +659,7 @@ func serveWs(closed <-chan struct{}, w http.ResponseWriter, r *http.Request, con
 		return
 	}
 
+	verifhook.Point("ws.checked")
 	// check permissions
 
 	var canRead, canWrite bool
@@ -700,6 +705,7 @@ func serveWs(closed <-chan struct{}, w http.ResponseWriter, r *http.Request, con
 			scopes:     token.Scopes,
 		}
 		client.hub.register <- client
+		verifhook.Point("ws.registered")
 
 		cf := log.Fields{
 			"booking_id":  token.BookingID,
@@ -1032,6 +1038,7 @@ func handleConnections(closed <-chan struct{}, parentwg *sync.WaitGroup, message
 				break
 			case bid := <-deny:
 				err := dcs.DeleteAndCloseParent(bid) //close all connections with this booking id
+				verifhook.Point("xbar.deny_processed")
 				if err != nil {
 					log.WithFields(log.Fields{"error": err.Error(), "bid": bid}).Error("error closing connections for bid")
 				}
